@@ -210,13 +210,27 @@ func ruleWIN4(c *Checker) {
 	for _, st := range w.Stores(fBase) {
 		fn := st.Parent()
 		n++
+		// the peer sequence number: the function's single uint8 parameter (whatever it is called);
+		// it is written "param:seq" in the templates below
 		var seq ssa.Value
+		nU8 := 0
 		for _, p := range fn.Params {
-			if p.Name() == "seq" {
+			if b, ok := p.Type().Underlying().(*types.Basic); ok && b.Kind() == types.Uint8 {
 				seq = p
+				nU8++
 			}
 		}
-		val := w.canonFB(st.Val)
+		if nU8 != 1 {
+			seq = nil
+		}
+		norm := func(v ssa.Value) string {
+			t := w.canonFB(v)
+			if seq != nil {
+				t = strings.ReplaceAll(t, "param:"+seq.Name(), "param:seq")
+			}
+			return t
+		}
+		val := norm(st.Val)
 		key := fmt.Sprintf("%s|base = %s", fnName(fn), val)
 		if seq == nil {
 			c.fail("WIN-4", key, instrPos(st), "the window base is moved in a function without a peer sequence parameter")
@@ -233,7 +247,7 @@ func ruleWIN4(c *Checker) {
 				if !eq {
 					continue
 				}
-				x, y := w.canonFB(bo.X), w.canonFB(bo.Y)
+				x, y := norm(bo.X), norm(bo.Y)
 				if (x == "param:seq" && y == other) || (y == "param:seq" && x == other) {
 					return true
 				}
@@ -1005,7 +1019,7 @@ func runC10(c *Checker) {
 		nTrue := 0
 		allInstrs(sh, func(in ssa.Instruction) {
 			phi, ok := in.(*ssa.Phi)
-			if !ok || phi.Comment != "resent" {
+			if !ok || !isRestartFlag(sh, phi) {
 				return
 			}
 			for i, e := range phi.Edges {
@@ -1210,7 +1224,7 @@ func ruleNonSynIgnored(c *Checker, fn *ssa.Function) {
 		}
 		return hasFact(b, func(f Fact) bool {
 			phi, ok := f.Cond.(*ssa.Phi)
-			return ok && f.Val && phi.Comment == "resent"
+			return ok && f.Val && isRestartFlag(fn, phi)
 		})
 	}
 	found, okk := false, true
@@ -1281,4 +1295,34 @@ func dominatedBySynEcho(w *World, b *ssa.BasicBlock) bool {
 		}
 	})
 	return res
+}
+
+// isRestartFlag: phi is a boolean flag variable of the server handshake that is tested
+// (as the condition of an If) inside the region where a parsed packet is known not to
+// be a SYN - the "we restarted, so SYNACK/DATA may complete" flag, whatever it is called.
+func isRestartFlag(fn *ssa.Function, phi *ssa.Phi) bool {
+	if b, ok := phi.Type().Underlying().(*types.Basic); !ok || b.Kind() != types.Bool {
+		return false
+	}
+	if phi.Parent() != fn || phi.Referrers() == nil {
+		return false
+	}
+	nonSyn := func(f Fact) bool {
+		ex, ok := f.Cond.(*ssa.Extract)
+		if !ok || f.Val || ex.Index != 1 {
+			return false
+		}
+		ta, ok := ex.Tuple.(*ssa.TypeAssert)
+		return ok && namedOf(ta.AssertedType) != nil && namedOf(ta.AssertedType).Obj().Name() == "PacketSYN"
+	}
+	for _, r := range *phi.Referrers() {
+		iff, ok := r.(*ssa.If)
+		if !ok || iff.Cond != ssa.Value(phi) {
+			continue
+		}
+		if hasFact(iff.Block(), nonSyn) {
+			return true
+		}
+	}
+	return false
 }
